@@ -640,6 +640,10 @@ func (fr *Frame) unop(x *ssa.UnOp, st *State, pc Term) Value {
 // globalConst: immutable-by-convention globals of dependencies (sentinel errors) are constants.
 func (u *Unit) globalConst(g *ssa.Global, st *State) (Value, bool) {
 	elem := g.Type().(*types.Pointer).Elem()
+	if c, ok := u.eng.constGlobals[g]; ok {
+		u.extUsed["A-globals: "+g.String()+" is only assigned its initial constant in the loaded packages"] = true
+		return u.constValue(c), true
+	}
 	if _, ok := elem.Underlying().(*types.Interface); ok && typeName(elem) == "error" {
 		if g.Pkg != nil && !isRepoPkg(g.Pkg.Pkg.Path()) || (len(g.Name()) > 3 && (g.Name()[:3] == "Err" || g.Name()[:3] == "err")) {
 			globalMu.Lock()
